@@ -122,6 +122,8 @@ def run_pinned(chk):
                        {"theorem": name, "reason": why, "diagnostics": diag, "log": (chk.oblig or {}).get("log_tail", "")[-1500:]}, found_input=False)
     elif broken:
         chk.notes.append("theorems that do not check on this tree: %s (a failing input was found, see the violations / known findings)" % sorted(broken))
+    from props import C20 as _c20
+    _c20.run_eq_leg(chk, lambda name: "ApplyNode" in name or "ApplyTensor" in name)    # the C wrappers of the Node and Tensor forms of every function
     chk.trusted += [
         "modelled, not verified: Graph::add_operator (order: argument count, CHECK_NODE of every argument, device, forward_shape, commit), the meaning of the helper functions get_device / Device::get_reference_or_default / Graph::get_reference_or_default / ptr_to_obj / obj_to_ptr, and the line protocol's argument syntax are written by hand in Driver/FuncsDrv.lean and Model/OpTable.lean and tied to the code by the correspondence run",
         "Api.same_kernel treats add_scalar_fw(x, k) and multiply_scalar_fw(x, k) as symmetric in (x, k) when both are scalars (x+k = k+x, x*k = k*x in IEEE arithmetic); the device of a kernel call is compared only when it is chosen by a device parameter",
